@@ -6,8 +6,8 @@
 (*  - conformance (strict): the recorded output must equal what the model   *)
 (*    of the code (the ...Impl operators / the implementation-shaped round  *)
 (*    of Placement.tla, with the Code_ constants of the cfg) yields for the *)
-(*    recorded input; a mismatch prints <<"DRIFT", scn, l, what>> (for a    *)
-(*    round: the rest of that round is then validated in "lost" mode);      *)
+(*    recorded input; a mismatch prints <<"DRIFT", scn, l, what>> (a round  *)
+(*    is compared when it closes, for SOME processing order of its offers); *)
 (*  - monitor: the property formulas (Sat, NearestWins, Fits, ParseRanges,  *)
 (*    PlacementOK = P0..P5) are evaluated on the recorded facts as soft     *)
 (*    invariants: a failure prints <<"VIOL", name, scn, l, detail>>.        *)
@@ -65,6 +65,9 @@
 (*  {"ev":"Decline","scn":n,"offers":["o2"]}                                *)
 (*  {"ev":"Verdict","scn":n,"deployed":["d1"],"undeployed":[],              *)
 (*       "undeployable":[]}                                                 *)
+(*  {"ev":"RoundEnd","scn":n}  closes the round when the core's verdict is  *)
+(*       not observable (next OFFERS event / end of scenario); Verdict and  *)
+(*       RoundEnd both trigger the evaluation of P0..P5                     *)
 (*  {"ev":"Panic","scn":n,"what":"..."}   the core died in the OFFERS       *)
 (*       handler (closes the round instead of Verdict)                      *)
 (*  {"ev":"Reset","scn":n}  is accepted and ignored.                        *)
@@ -169,16 +172,46 @@ TPure ==
 (***************************************************************************)
 (* Round lines                                                              *)
 (***************************************************************************)
+RECURSIVE SetToSortedStrings(_)
+SetToSortedStrings(S) ==   \* only used on the three kinds of P3: any fixed order will do
+  IF S = {} THEN <<>>
+  ELSE LET x == IF "not-offered" \in S THEN "not-offered" ELSE IF "repeated" \in S THEN "repeated" ELSE CHOOSE y \in S : TRUE
+       IN <<x>> \o SetToSortedStrings(S \ {x})
+
 NoMon == [open |-> FALSE, scn |-> -1, offers |-> <<>>, descs |-> <<>>, accepts |-> <<>>, declined |-> {}]
 
+\* input/outcome classes of the failures, for the signatures of known findings
+P1Pattern(m) ==
+  LET B == P1Bad(m.offers, m.descs, m.accepts)
+      x == CHOOSE x \in B : TRUE
+      o == ById(m.offers, x[2])
+      d == ById(m.descs, x[1])
+  IN IF B = {} THEN "-"
+     ELSE IF ~Sat(o.attrs, DescCts(d)) THEN SatPattern(o.attrs, DescCts(d), TRUE)
+     ELSE "resources do not cover the template"
+P2Pattern(m) ==
+  LET K == {ij \in Known(m.offers, m.descs, m.accepts) : ~P2TaskOK(ById(m.descs, TaskAt(m.accepts, ij).desc), TaskAt(m.accepts, ij))}
+      ij == CHOOSE ij \in K : TRUE
+      t == TaskAt(m.accepts, ij)
+      d == ById(m.descs, t.desc)
+      static == PortSet(DescStatic(d))
+  IN IF K = {} THEN "-"
+     ELSE IF ~(static \subseteq TaskPorts(t)) THEN "static range not requested as written"
+     ELSE IF Cardinality(TaskPorts(t) \ static) < d.tcp_inbound + DescCtl(d) THEN "a dynamic or control port coincides with a static port"
+     ELSE "other"
+KindsOf(B) == {x[1] : x \in B}
+P4Pattern(m) ==
+  LET Kn == KindsOf(P4Bad(m.offers, m.descs, m.accepts)) IN
+  IF Kn = {} THEN "-" ELSE IF Kn \subseteq {"cpu", "mem"} THEN "sum of the requests exceeds the offer" ELSE "a task requests less than its template wants"
 \* the checks of a closing round; withP5 = FALSE when the round ended in a panic
 CloseViol(m, withP5) ==
-    Soft("P0_KnownIds", P0Bad(m.offers, m.descs, m.accepts) = {}, P0Bad(m.offers, m.descs, m.accepts))
-  + Soft("P1_ConstraintsAndResources", P1Bad(m.offers, m.descs, m.accepts) = {}, P1Bad(m.offers, m.descs, m.accepts))
-  + Soft("P2_TaskPorts", P2Bad(m.offers, m.descs, m.accepts) = {}, P2Bad(m.offers, m.descs, m.accepts))
-  + Soft("P3_PortsOfferedAndDistinct", P3Bad(m.offers, m.descs, m.accepts) = {}, P3Bad(m.offers, m.descs, m.accepts))
-  + Soft("P4_OfferNotExceeded", P4Bad(m.offers, m.descs, m.accepts) = {}, P4Bad(m.offers, m.descs, m.accepts))
-  + (IF withP5 THEN Soft("P5_UnusedDeclined", P5Bad(m.offers, m.accepts, m.declined) = {}, P5Bad(m.offers, m.accepts, m.declined)) ELSE 0)
+    Soft("P0_KnownIds", P0Bad(m.offers, m.descs, m.accepts) = {}, <<"-", P0Bad(m.offers, m.descs, m.accepts)>>)
+  + Soft("P1_ConstraintsAndResources", P1Bad(m.offers, m.descs, m.accepts) = {}, <<P1Pattern(m), P1Bad(m.offers, m.descs, m.accepts)>>)
+  + Soft("P2_TaskPorts", P2Bad(m.offers, m.descs, m.accepts) = {}, <<P2Pattern(m), P2Bad(m.offers, m.descs, m.accepts)>>)
+  + Soft("P3_PortsOfferedAndDistinct", P3Bad(m.offers, m.descs, m.accepts) = {},
+         <<JoinR(SetToSortedStrings(KindsOf(P3Bad(m.offers, m.descs, m.accepts))), "+"), P3Bad(m.offers, m.descs, m.accepts)>>)
+  + Soft("P4_OfferNotExceeded", P4Bad(m.offers, m.descs, m.accepts) = {}, <<P4Pattern(m), P4Bad(m.offers, m.descs, m.accepts)>>)
+  + (IF withP5 THEN Soft("P5_UnusedDeclined", P5Bad(m.offers, m.accepts, m.declined) = {}, <<"-", P5Bad(m.offers, m.accepts, m.declined)>>) ELSE 0)
 
 \* a round left open (no Verdict / Panic) is a harness error, reported as such
 OpenLeft == IF mon.open THEN PrintT(<<"OPENROUND", mon.scn, l>>) ELSE TRUE
@@ -191,64 +224,84 @@ TRound ==
   /\ mode' = "ok"
   /\ l' = l + 1 /\ UNCHANGED <<c, nviol>>
 
-TasksMatch(rec, mod) ==
-  /\ Len(rec) = Len(mod)
-  /\ \A j \in 1..Len(rec) :
-       /\ rec[j].desc = mod[j].desc /\ rec[j].cpu = mod[j].cpu /\ rec[j].mem = mod[j].mem
-       /\ Range(rec[j].ports) = mod[j].portset
-
-AcceptConforms ==
-  /\ rd.pc = "offers" /\ Line.offer \in Ids(rd.offers) \ rd.processed
-  /\ (rd.undep = <<>> \/ rd.processed # {})
-  /\ LET r2 == OfferResult(rd, Line.offer) IN
-     /\ r2.pc = "offers"
-     /\ TasksMatch(Line.tasks, r2.accepts[Len(r2.accepts)].tasks)
+\* Conformance of a round is judged when it closes and does not depend on the order in which the
+\* ACCEPT calls reached the master (the per-offer sections of the handler run under a mutex in an order
+\* of their own, each sends its ACCEPT after leaving it): the recorded round must be the outcome of
+\* the implementation-shaped model for SOME order of the offers.  ACCEPTs without operations are ignored.
+RecAccepts(accepts) ==
+  {<<accepts[i].offer, [j \in 1..Len(accepts[i].tasks) |->
+        <<accepts[i].tasks[j].desc, accepts[i].tasks[j].cpu, accepts[i].tasks[j].mem, Range(accepts[i].tasks[j].ports)>>]>> :
+     i \in {i \in 1..Len(accepts) : Len(accepts[i].tasks) > 0}}
+ModAccepts(accepts) ==
+  {<<accepts[i].offer, [j \in 1..Len(accepts[i].tasks) |->
+        <<accepts[i].tasks[j].desc, accepts[i].tasks[j].cpu, accepts[i].tasks[j].mem, accepts[i].tasks[j].portset>>]>> :
+     i \in {i \in 1..Len(accepts) : Len(accepts[i].tasks) > 0}}
+Orders == Perms(Ids(rd.offers))
+ClosedLike(e) ==
+  /\ e.pc = "done"
+  /\ RecAccepts(mon.accepts) = ModAccepts(e.accepts)
+  /\ mon.declined = e.declined
+RoundConforms == rd.pc = "offers" /\ \E ord \in Orders : ClosedLike(FinalOf(rd, ord))
+VerdictConforms ==
+  /\ rd.pc = "offers"
+  /\ \E ord \in Orders :
+       LET e == FinalOf(rd, ord) IN
+       /\ ClosedLike(e)
+       /\ Range(Line.deployed) = Deployed(e)
+       /\ Range(Line.undeployed) = Range(e.todo)
+       /\ Range(Line.undeployable) = Range(e.undep)
+PanicConforms ==
+  /\ rd.pc = "offers"
+  /\ \E ord \in Orders :
+       LET e == FinalOf(rd, ord) IN
+       e.pc = "panic" /\ RecAccepts(mon.accepts) \subseteq ModAccepts(e.accepts)
 
 TAccept ==
   /\ l <= Len(Trace) /\ Line.ev = "Accept"
   /\ mon' = [mon EXCEPT !.accepts = Append(@, [offer |-> Line.offer, tasks |-> Line.tasks])]
-  /\ IF mode = "ok"
-       THEN IF AcceptConforms THEN rd' = OfferResult(rd, Line.offer) /\ mode' = "ok"
-            ELSE Drift(FALSE, <<"Accept", Line.offer, Line.tasks>>) /\ mode' = "lost" /\ UNCHANGED rd
-       ELSE UNCHANGED <<rd, mode>>
-  /\ l' = l + 1 /\ UNCHANGED <<c, nviol>>
+  /\ l' = l + 1 /\ UNCHANGED <<c, rd, mode, nviol>>
 
 TDecline ==
   /\ l <= Len(Trace) /\ Line.ev = "Decline"
   /\ mon' = [mon EXCEPT !.declined = @ \cup Range(Line.offers)]
-  /\ IF mode = "ok"
-       THEN IF rd.pc = "offers" /\ Range(Line.offers) \subseteq Ids(rd.offers) \ UsedOffers(rd.accepts) THEN mode' = "ok"
-            ELSE Drift(FALSE, <<"Decline", Line.offers>>) /\ mode' = "lost"
-       ELSE UNCHANGED mode
-  /\ l' = l + 1 /\ UNCHANGED <<c, rd, nviol>>
-
-VerdictConforms ==
-  /\ rd.pc = "offers"
-  /\ rd.processed = Ids(rd.offers) \/ (rd.undep # <<>> /\ rd.processed = {})
-  /\ Range(Line.deployed) = Deployed(rd)
-  /\ Range(Line.undeployed) = Range(rd.todo)
-  /\ Range(Line.undeployable) = Range(rd.undep)
-  /\ mon.declined = Ids(rd.offers) \ UsedOffers(rd.accepts)
+  /\ l' = l + 1 /\ UNCHANGED <<c, rd, mode, nviol>>
 
 TVerdict ==
   /\ l <= Len(Trace) /\ Line.ev = "Verdict"
   /\ nviol' = nviol + (IF mon.open THEN CloseViol(mon, TRUE) ELSE 0)
   /\ mon' = NoMon
-  /\ IF mode = "ok"
-       THEN IF VerdictConforms THEN rd' = FinishResult(rd)
-            ELSE Drift(FALSE, <<"Verdict", Line.deployed, Line.undeployed, Line.undeployable>>) /\ UNCHANGED rd
-       ELSE UNCHANGED rd
+  /\ IF mode = "ok" THEN Drift(VerdictConforms, <<"Round", mon.accepts, mon.declined, Line.deployed, Line.undeployed, Line.undeployable>>) ELSE TRUE
   /\ mode' = "idle"
-  /\ l' = l + 1 /\ UNCHANGED c
+  /\ l' = l + 1 /\ UNCHANGED <<c, rd>>
+
+\* end of a round without the core's own verdict (whole-core simulation: the next OFFERS event or the end of the scenario)
+TRoundEnd ==
+  /\ l <= Len(Trace) /\ Line.ev = "RoundEnd"
+  /\ nviol' = nviol + (IF mon.open THEN CloseViol(mon, TRUE) ELSE 0)
+  /\ mon' = NoMon
+  /\ IF mode = "ok" THEN Drift(RoundConforms, <<"Round", mon.accepts, mon.declined>>) ELSE TRUE
+  /\ mode' = "idle"
+  /\ l' = l + 1 /\ UNCHANGED <<c, rd>>
+
+\* input class of a panic: the offers of the round cannot give every descriptor they admit its data ports (>= 9000)
+\* and a control port (>= 30000) - which Resources.Satisfy does not look at
+PortClassShortage(m) ==
+  \E i \in 1..Len(m.offers) :
+    LET o == m.offers[i]
+        adm(d) == (Sat(o.attrs, DescCts(d)) \/ SatLastOnly(o.attrs, DescCts(d))) /\ d.cpu <= o.cpus /\ d.mem <= o.mem
+        nctl == SumSeq([j \in 1..Len(m.descs) |-> IF adm(m.descs[j]) THEN 1 ELSE 0])
+        ndata == SumSeq([j \in 1..Len(m.descs) |-> IF adm(m.descs[j]) THEN 1 + m.descs[j].tcp_inbound ELSE 0])
+        P == PortSet(o.ports)
+    IN nctl > Cardinality({p \in P : p >= CtlPortMin}) \/ ndata > Cardinality({p \in P : p >= DataPortMin})
 
 TPanic ==
   /\ l <= Len(Trace) /\ Line.ev = "Panic"
-  /\ nviol' = nviol + Soft("NoPanic", FALSE, IF Has("what") THEN Line.what ELSE "")
+  /\ nviol' = nviol + Soft("NoPanic", FALSE,
+                            <<IF mon.open /\ PortClassShortage(mon) THEN "offer short of ports >= 9000 / >= 30000 for the descriptors it admits"
+                              ELSE "other", IF Has("what") THEN Line.what ELSE "">>)
                     + (IF mon.open THEN CloseViol(mon, FALSE) ELSE 0)
   /\ mon' = NoMon
-  \* the model of the code as it is may predict it: pc = "panic" after the next offer
-  /\ IF mode = "ok" /\ ~(\E oid \in Ids(rd.offers) \ rd.processed : OfferResult(rd, oid).pc = "panic")
-       THEN Drift(FALSE, <<"Panic">>) ELSE TRUE
+  /\ IF mode = "ok" THEN Drift(PanicConforms, <<"Panic", mon.accepts>>) ELSE TRUE
   /\ mode' = "idle"
   /\ l' = l + 1 /\ UNCHANGED <<c, rd>>
 
@@ -260,7 +313,12 @@ TraceInit ==
   /\ c = NoCase /\ rd = NoRound
   /\ l = 1 /\ mode = "idle" /\ mon = NoMon /\ nviol = 0
 
-TraceNext == TPure \/ TRound \/ TAccept \/ TDecline \/ TVerdict \/ TPanic \/ TReset
+TPurePanic ==
+  /\ l <= Len(Trace) /\ Line.ev = "PurePanic"
+  /\ nviol' = nviol + Soft("NoPanic", FALSE, <<"pure function panicked", Line.fn, Line.what>>)
+  /\ l' = l + 1 /\ UNCHANGED <<c, rd, mode, mon>>
+
+TraceNext == TPure \/ TPurePanic \/ TRound \/ TAccept \/ TDecline \/ TVerdict \/ TRoundEnd \/ TPanic \/ TReset
 
 TraceSpec == TraceInit /\ [][TraceNext]_allvars
 
